@@ -33,9 +33,15 @@ func (g *lsGen) sleepTo(t time.Time) {
 }
 
 func (g *lsGen) c06Create(k string) string {
+	g.try(bs("del", k))
+	return g.c06Fill(k)
+}
+
+// c06Fill creates k by its first write (no DEL before it: whatever removed the
+// previous value must have removed its deadline too).
+func (g *lsGen) c06Fill(k string) string {
 	r := g.r
 	typ := pick(r, []string{"string", "string", "string", "list", "set", "hash", "zset"})
-	g.try(bs("del", k))
 	switch typ {
 	case "string":
 		g.try(bs("set", k, pick(r, []string{"v", "10", "hello"})))
@@ -72,9 +78,45 @@ func (g *lsGen) c06Attach(k, typ string) {
 	g.try(bs("expire", k, itoa(n)))
 }
 
-func (g *lsGen) c06FollowUp(k, typ string) {
+func (g *lsGen) c06FollowUp(k, typ string) string {
 	r := g.r
-	switch r.Intn(12) {
+	switch r.Intn(13) {
+	case 10, 11:
+		// the key ceases to exist by being emptied or overwritten by an empty
+		// result, not by DEL: its deadline goes with it, and a key created later
+		// under the same name has none
+		if r.Bool(0.4) {
+			g.try(pick(r, [][]B{bs("sinterstore", k, g.prefix+"nosuch"), bs("sdiffstore", k, g.prefix+"nosuch", g.prefix+"nosuch2"),
+				bs("sunionstore", k, g.prefix+"nosuch"), bs("sinterstore", k, g.prefix+"nosuch", k)}))
+		} else {
+			switch typ {
+			case "string":
+				g.try(pick(r, [][]B{bs("expire", k, "0"), bs("expire", k, "-5"), bs("set", k, "x", "exat", "1")}))
+			case "list":
+				g.try(pick(r, [][]B{bs("ltrim", k, "1", "0"), bs("lpop", k, "10"), bs("rpop", k, "10"), bs("lrem", k, "0", "a")}))
+				g.try(bs("lpop", k, "10"))
+			case "set":
+				g.try(pick(r, [][]B{bs("spop", k, "10"), bs("srem", k, "m1", "m2", "m3", "w"), bs("smove", k, g.prefix+"other", "m1")}))
+				g.try(bs("srem", k, "m1", "m2", "m3", "w"))
+			case "hash":
+				g.try(bs("hdel", k, "f", "g", "w", "n"))
+			case "zset":
+				g.try(bs("zrem", k, "a", "b", "w"))
+			}
+		}
+		g.try(bs("exists", k))
+		if e := g.entry(k); e == nil {
+			return g.c06Fill(k)
+		}
+		return typ
+	case 12:
+		// a non-positive TTL deletes the key, but only when the option's condition holds
+		g.try(bs("expire", k, pick(r, []string{"0", "-1", "-100"}), pick(r, []string{"nx", "xx", "gt", "lt", "XX", "NX"})))
+		g.try(bs("exists", k))
+		if e := g.entry(k); e == nil {
+			return g.c06Fill(k)
+		}
+		return typ
 	case 0:
 		if typ == "string" {
 			g.try(bs("set", k, "plain")) // removes the deadline
@@ -87,7 +129,7 @@ func (g *lsGen) c06FollowUp(k, typ string) {
 		g.try(bs("persist", k))
 	case 3:
 		g.try(bs("del", k))
-		g.c06Create(k)
+		return g.c06Fill(k)
 	case 4:
 		k2 := g.key()
 		g.try(bs("rename", k, k2))
@@ -116,6 +158,7 @@ func (g *lsGen) c06FollowUp(k, typ string) {
 	case 9:
 		g.try(bs("ttl", k))
 	}
+	return typ
 }
 
 func (g *lsGen) c06Probe(k, typ string) {
@@ -159,6 +202,26 @@ func (g *lsGen) c06Probe(k, typ string) {
 		return
 	}
 	// writes must start from an empty key once it has expired
+	if r.Bool(0.25) {
+		// ... also when the key is only the destination of a multi-key command
+		aux := g.prefix + "aux"
+		switch typ {
+		case "list":
+			g.try(bs("rpush", aux, "x"))
+			g.try(bs("lmove", aux, k, pick(r, []string{"left", "right"}), pick(r, []string{"left", "right"})))
+			g.try(bs("lrange", k, "0", "-1"))
+		case "set":
+			g.try(bs("sadd", aux, "m9"))
+			g.try(bs("smove", aux, k, "m9"))
+			g.try(bs("smembers", k))
+		default:
+			g.try(bs("set", aux, "moved"))
+			g.try(bs("rename", aux, k))
+			g.try(bs("ttl", k))
+		}
+		g.try(bs("del", aux))
+		return
+	}
 	switch typ {
 	case "string":
 		g.try(pick(r, [][]B{bs("append", k, "w"), bs("incr", k), bs("setnx", k, "n"), bs("setrange", k, "0", "Z"), bs("set", k, "x", "xx"), bs("set", k, "y", "nx")}))
@@ -189,7 +252,7 @@ func genC06(r *core.Rand, env *core.Env, run int) *Scenario {
 		typ := g.c06Create(k)
 		g.c06Attach(k, typ)
 		for i := 0; i < r.Intn(3); i++ {
-			g.c06FollowUp(k, typ)
+			typ = g.c06FollowUp(k, typ)
 		}
 		// which key carries the deadline now (RENAME may have moved it)
 		for _, kk := range g.keys {
@@ -222,7 +285,7 @@ func genC06(r *core.Rand, env *core.Env, run int) *Scenario {
 				g.c06Probe(k, typ)
 			}
 			if r.Bool(0.15) {
-				g.c06FollowUp(k, typ)
+				typ = g.c06FollowUp(k, typ)
 				if e2 := g.entry(k); e2 == nil || !e2.HasTTL || !e2.WinLo.Equal(lo) {
 					break
 				}
